@@ -71,8 +71,9 @@ Example tuple_leaves_not_interpolated :
      = ONew (TO [("t", TF 10%Z); ("centre", TT [TF 1%Z; TF 2%Z])]).
 Proof. split; vm_compute; reflexivity. Qed.
 
-(* the refutation: an int-typed interpolation variable is never touched when the result of the final
-   replacing_for_path is discarded, whatever the routine does *)
+(* history: before /repo dbd9428 the result of the final replacing_for_path was discarded (assign = false);
+   an int-typed interpolation variable was then never touched, whatever the routine does.  The code now is
+   the variant assign = true (Props.C20_variable_code is stated with Gen.assigns_final). *)
 Lemma variable_refuted_witness :
   exists (insts : list (tree Z)) (q : list string) (qv r : tree Z),
     interp_at Z.leb Z.eqb (fun z => z) (fun _ _ v => Some v) TF false insts q qv = ONew r /\
@@ -102,3 +103,28 @@ Example linear_series_Q :
   | _ => False
   end.
 Proof. vm_compute. split; reflexivity. Qed.
+
+(* C20_defined is not vacuous: the series above meets its hypotheses and the query is answered *)
+Example defined_hypotheses_hold :
+  series <> [] /\ (forall ys, List.length ys = 3%nat -> exists y, left_value (sort_keys Z.leb [20; 0; 10]%Z) ys 15%Z = Some y)
+  /\ run true series (TF 15%Z) <> OErr.
+Proof.
+  split; [discriminate|]. split; [|vm_compute; discriminate].
+  intros [|a [|b [|c [|d ys]]]] H; try discriminate. vm_compute. eexists. reflexivity.
+Qed.
+
+(* a routine whose result is not a float (mk = TA, a 0-d array): the parameters of the returned instance are
+   not found by the walk any more, so a series made of such results is not interpolated (finding
+   spline-result-is-array) *)
+Example array_results_are_not_walked :
+  match interp_at Z.leb Z.eqb (fun z => z) left_value TA true series ["t"] (TF 15%Z) with
+  | ONew r => fpaths r = [[KS "t"]] /\ get [KS "gaussian"; KS "centre"] r = Some (TA 150%Z)
+  | _ => False
+  end.
+Proof. vm_compute. split; reflexivity. Qed.
+
+(* the executable form of the theorems' hypotheses, as evaluated on every binary64 run by check_case *)
+Example hypotheses_decided_on_a_carrier :
+  order_ok_b Z.leb Z.eqb [15; 20; 0; 10]%Z = true /\ distinct_b Z.eqb [20; 0; 10]%Z = true /\
+  distinct_b Z.eqb [20; 0; 20]%Z = false.
+Proof. vm_compute. repeat split. Qed.
